@@ -64,7 +64,8 @@ fn main() {
         i += 1;
     }
     framework::install_panic_hook();
-    let code = match prop.as_str() {
+    let prop2 = prop.clone();
+    let run = std::panic::catch_unwind(std::panic::AssertUnwindSafe(move || match prop.as_str() {
         "C01" => props::c01::run(tier, seed, only.and_then(|s| s.parse().ok())),
         "C02" => props::c02::run(tier, seed, only.and_then(|s| s.parse().ok())),
         "C03" => props::c03::run(tier, seed, only),
@@ -88,6 +89,27 @@ fn main() {
         _ => {
             eprintln!("unknown property {prop}");
             2
+        }
+    }));
+    let code = match run {
+        Ok(c) => c,
+        Err(_) => {
+            // a panic escaped every guarded scope (e.g. on a worker thread)
+            let p = framework::last_panic_anywhere();
+            let (file, line, message) = p.as_ref().map_or(("<unknown>".to_string(), 0, "<unknown>".to_string()), |p| (p.file.clone(), p.line, p.message.clone()));
+            if p.as_ref().is_some_and(framework::Panic::in_repo) {
+                let dir = format!("{}/evidence/replay", framework::verif_dir());
+                let _ = std::fs::create_dir_all(&dir);
+                let path = format!("{dir}/{prop2}-{seed}-escaped-panic.json");
+                let _ = std::fs::write(&path, serde_json::json!({"property": prop2, "seed": seed, "tier": tier.name(), "panic": {"file": file, "line": line, "message": message}, "how": format!("vcheck {prop2} --tier {} --seed {seed}", tier.name())}).to_string());
+                println!("VIOLATION property={prop2} replay={path}");
+                println!("  signature: no_panic|escaped|{}", p.as_ref().map(framework::Panic::site).unwrap_or_default());
+                println!("  detail: the code under test panicked at {file}:{line}: {message}");
+                1
+            } else {
+                println!("INCONCLUSIVE property={prop2} harness panic at {file}:{line}: {message}");
+                2
+            }
         }
     };
     std::process::exit(code);
